@@ -142,9 +142,10 @@ func String(data any, args ...any) string {
 // Bytes returns a SEN []byte for the data provided. The data can be a simple
 // type of nil, bool, int, floats, time.Time, []any, or
 // map[string]any or a Node type, The args, if supplied can be an int
-// as an indent, *ojg.Options, or a *Writer. The returned buffer is the Writer
-// buffer and is reused on the next call to write. If returned value is to be
-// preserved past a second invocation then the buffer should be copied.
+// as an indent, *ojg.Options, or a *Writer. If a *Writer is provided the
+// returned buffer is the Writer buffer and is reused on the next call to
+// write. If returned value is to be preserved past a second invocation then
+// the buffer should be copied.
 func Bytes(data any, args ...any) []byte {
 	var wr *Writer
 	if 0 < len(args) {
@@ -153,6 +154,13 @@ func Bytes(data any, args ...any) []byte {
 	if wr == nil {
 		wr, _ = writerPool.Get().(*Writer)
 		defer writerPool.Put(wr)
+		// The writer goes back to the pool and can be picked up by any
+		// other goroutine so the buffer must not be shared with the caller.
+		b := wr.MustSEN(data)
+		out := make([]byte, len(b))
+		copy(out, b)
+
+		return out
 	}
 	return wr.MustSEN(data)
 }
